@@ -113,3 +113,45 @@ def key_pos(pid, c):
     if "(-> [1 2] (nth 7))" in text and "(def g" in text:
         return "pos.macro-rebuilt.via-callback"
     return None
+
+
+def key_conc(pid, c):
+    """C09/C10, lib/concurrent: the defect class of a violating `conc` case (witness name, history shape, race pair)."""
+    import re
+    f = c.payload.split("\t")[0].split()
+    why = c.go.split("\t!", 1)[1] if "\t!" in c.go else ""
+    if f[:1] == ["wit"] and len(f) > 1:
+        return {"swap-self-deref": "swap.self-deref", "swap-crossed": "swap.crossed",
+                "swap-fail-usable": "swap.failed-update",
+                "future-done-after-deref": "future.done-window",
+                "future-cancel-after-delivery": "future.cancel-after-delivery",
+                "future-cancel-running": "future.cancel-running",
+                "future-derefs-agree": "future.outcome"}.get(f[1], "conc.wit." + f[1])
+    if f[:1] == ["race"]:
+        if "wit future-done-after-deref" in why:
+            return "future.done-window"
+        if "wit future-cancel-after-delivery" in why:
+            return "future.cancel-after-delivery"
+        if "LispPrint" in why:
+            return "atom.print-race"
+        if "Future" in why or "future" in why:
+            return "future.flag-race"
+        return "conc.race." + (f[1] if len(f) > 1 else "?")
+    if f[:2] == ["hist", "a"]:
+        if c.go.startswith("HANG"):
+            if re.search(r"s(\d+)@\1\b", c.payload):
+                return "swap.self-deref"
+            return "swap.crossed"
+        return "atom.history-not-linearizable"
+    if f[:2] == ["hist", "f"]:
+        if c.go.startswith("HANG"):
+            return "future.blocked"
+        toks = c.payload.split()
+        if any(t.startswith("C") for t in toks):
+            return "future.cancel-after-delivery"
+        return "future.done-window"
+    return None
+
+
+key_conc_atom = key_conc
+key_conc_future = key_conc
